@@ -24,6 +24,7 @@ DECISIONS = ['APPROVED', 'CHANGES_REQUESTED', 'REVIEW_REQUIRED', 'NONE', 'OTHER'
 LABEL_NAMES = ['prio:high', 'WIP', 'stacked PR', 'do-not-test', 'bug']
 REPO = 'hail-is/hail'
 BRANCH = 'main'
+KEY_LOST = 'a GitHub notification is forgotten when the refresh it triggers fails: CI then merges on its stale view'
 KEY_DUP = 'merge while the batch for the current target is still running: build_state success inherited from another batch of the same source_sha'
 
 
@@ -254,12 +255,18 @@ class History:
         self.n_merges = 0
         self.pending_flags = []
         self.in_block = False
+        self.clock = 0                 # logical time: one tick per API call / op
+        self.pass_id = 0               # number of top-level entry-point calls so far
+        self.delivered = None          # the latest GitHub webhook / poll delivered to CI: time, pass, GitHub's PRs at that moment
+        self.last_ok_refresh_start = -1
+        self.failed_refresh_times = []
         self.refreshed_since_merge = True
         self.ci_sent = {}      # head sha -> last ci-test state CI sent (whether or not the request reached GitHub)
 
     # -- hooks ----------------------------------------------------------------------------------------------------------
     async def api(self, what):
         self.api_count += 1
+        self.clock += 1
         due = [op for (k, op) in self.mid if k == self.api_count]
         for op in due:
             await self.apply(op, nested=True)
@@ -320,6 +327,21 @@ class History:
             if not tested:
                 msgs.append(f'GitHub merged head {merged}, a commit without a successful test batch against target {self.last_seen_target}'
                             + (' (the merge request carried no `sha` precondition)' if sha is None else ''))
+        # GitHub's ground truth that CI has been TOLD about: a webhook delivered in an earlier pass (or as the entry of this one) obliges
+        # CI to refresh before it merges; only a change whose webhook arrived during the running pass (or never) may still be unknown
+        d = self.delivered
+        if d and d['time'] > self.last_ok_refresh_start and (d['pass'] < self.pass_id or d['entry']):
+            q = d['prs'].get(n)
+            sub = []
+            if q and q['open']:
+                if q['labels'][1] or q['labels'][2]:
+                    sub.append('labelled do-not-merge (WIP / stacked PR)')
+                if q['decision'] != 'APPROVED':
+                    sub.append(f'not approved (reviewDecision {q["decision"]})')
+            if sub:
+                failed = any(t >= d['time'] for t in self.failed_refresh_times)
+                msgs.append(('[after a failed refresh] ' if failed else '') + 'on GitHub, as of a webhook delivered to CI in an earlier pass and not '
+                            'followed by a completed refresh, the PR is ' + ', '.join(sub))
         if msgs:
             # does CI's PR object point at a batch that was created for ANOTHER pull request (same head commit)?
             rpr = self.wb.prs.get(n)
@@ -377,11 +399,13 @@ class History:
         async def w_gh(gh):
             self.rec_gh = {}
             self.in_block = True
+            refresh_start = self.clock
             try:
                 await o_gh(gh)
             finally:
               r = self.rec_gh
               if r.get('failed'):
+                self.failed_refresh_times.append(refresh_start)
                 self.tags.append('fault:refresh')
                 self.emit('ghfail')
                 await self.end_block()
@@ -389,6 +413,7 @@ class History:
                 listing = r.get('listing', [])
                 parts = [f"gh {r.get('target', 0)} {len(listing)}"]
                 self.last_seen_target = r.get('target')
+                self.last_ok_refresh_start = refresh_start
                 self.refreshed_since_merge = True
                 self.ci_sent = {}
                 self.last_seen = {}
@@ -489,6 +514,15 @@ class History:
             wb = self.wb
             f = {'notify_gh': wb.notify_github_changed, 'notify_batch': wb.notify_batch_changed, 'update': wb.update}[t]
             kind = {'notify_gh': 'g', 'notify_batch': 'b', 'update': 'all'}[t]
+            self.clock += 1
+            if not nested:
+                self.pass_id += 1
+            if t in ('notify_gh', 'update'):
+                # a GitHub webhook (or the poll) reaches CI now: from here on CI knows that GitHub changed
+                import copy
+                self.delivered = {'time': self.clock, 'pass': self.pass_id, 'entry': not nested, 'prs': copy.deepcopy(gh.prs)}
+                if nested:
+                    self.tags.append('webhook-mid-block')
             if self.in_block:
                 self.pending_flags.append((kind, f))
                 return
@@ -609,7 +643,8 @@ class C30(Prop):
     assumptions = ['GitHub refuses a merge request whose `sha` is not the current head of the PR (the only GitHub-side guarantee used)',
                    '"every reported check" is read as every REQUIRED check of the head commit (the code filters on isRequired) plus the CI\'s own status',
                    'review / label / required-check facts and the target branch commit are judged as GitHub last reported them to CI (CI polls; a push whose webhook has not arrived yet cannot be known to it)',
-                   'list_batches(source_sha=…) returns exactly the ci test batches with that attribute, newest first']
+                   'list_batches(source_sha=…) returns exactly the ci test batches with that attribute, newest first',
+                   'GitHub facts CI was notified of (webhook delivered in an earlier pass, or as the entry of the pass) are judged against GitHub\'s ground truth of the delivery moment unless CI completed a refresh since; only changes whose webhook arrives during the running pass, or never, may be unknown to CI']
 
     def setup(self, repo):
         import os
@@ -664,6 +699,9 @@ class C30(Prop):
         return h.oracle_msgs[0] if h.oracle_msgs else None
 
     def finding_key(self, c, msg):
+        # root cause: `_update` clears github_changed before `_update_github`; if that refresh raises, nobody sets it again
+        if '[after a failed refresh] on GitHub' in msg and msg.count('; ') == 0:
+            return KEY_LOST
         # one root cause = one key: the merged PR's batch belongs to another PR with the same head commit and is unfinished; the only
         # complaints are the missing successful batch and (the other PR keeps re-posting it) the ci-test status of the shared commit
         if '[batch of another PR with the same head]' in msg and 'no successful test batch' in msg and "'running')" in msg:
@@ -697,7 +735,10 @@ class C30(Prop):
                 w = world()
                 if w[0] == 'done':      # a completion in the middle of a block cannot be placed in the model's event order
                     w = ['target']
-                mid.append([k, rng.choice([['notify_gh'], ['notify_batch'], w])])
+                choice = rng.choice([['notify_gh'], ['notify_batch'], w, w])
+                mid.append([k, choice])
+                if choice is w and rng.random() < 0.7:
+                    mid.append([k + rng.choice([0, 0, 1]), ['notify_gh']])     # …and its webhook arrives while the pass is still running
             if r < 0.6:
                 return ['notify_gh', mid]
             if r < 0.85:
@@ -793,9 +834,30 @@ class C30(Prop):
         ops += [['notify_gh', []], ['done', 0, 1], ['notify_batch', []], ['update', []]]
         return {'ci_required': rng.random() < 0.7, 'ci_last': False, 'order_desc': False, 'ops': ops}
 
+    def gen_mid_refresh(self, rng):
+        """a PR becomes unmergeable on GitHub (label, review dismissed, new commit) and the webhook arrives WHILE a refresh is in
+        flight — after the PR list was fetched; later its test batch succeeds and only the batch callback arrives"""
+        k = rng.choice([1, 2, 3])
+        ops = [['open', i, 500 + 10 * i, 1, '00000'] for i in range(1, k + 1)]
+        ops += [['review', i, 'APPROVED'] for i in range(1, k + 1)]
+        ops.append(['notify_gh', []])
+        victim = rng.randint(1, k)
+        change = rng.choice([['labels', victim, '01000'], ['labels', victim, '00100'], ['review', victim, 'CHANGES_REQUESTED'],
+                             ['labels', victim, '01000'], ['review', victim, 'REVIEW_REQUIRED']])
+        at = rng.randint(2, 3 + k)          # API calls of a refresh: 1 = refs, 2 = pulls listing, 3… = one GraphQL query per PR
+        ops.append([rng.choice(['notify_gh', 'update']), [[at, change], [at + rng.choice([0, 0, 1]), ['notify_gh']]]])
+        ops += [['done', 0, 1] for _ in range(k)]
+        ops.append(['notify_batch', []])
+        if rng.random() < 0.5:
+            ops.append(['notify_batch', []])
+        ops.append(['update', []])
+        return {'ci_required': rng.random() < 0.7, 'ci_last': False, 'order_desc': rng.random() < 0.3, 'ops': ops}
+
     def cases(self, rng, n, tier):
         for i in range(n):
-            if i % 8 == 3:
+            if i % 8 == 5:
+                yield self.gen_mid_refresh(rng)
+            elif i % 8 == 3:
                 yield self.gen_push_race(rng)
             elif i % 8 == 7:
                 yield self.gen_directed(rng)
